@@ -626,11 +626,12 @@ class eval_abs(object):
                         out.append((ee, off_base, off_base+ee.get_size()))
                         off_base += ee.get_size()
                     else:
+                        # the cell starts before the read: its tail is the
+                        # low part of the result
                         m = min(a.get_size()-off*8, x.get_size())
                         ee = ExprSlice(self.pool[x], -off*8, m)
                         ee = expr_simp(ee)
-                        out.append((ee, off_base, off_base+ee.get_size()))
-                        off_base += ee.get_size()
+                        out.append((ee, 0, ee.get_size()))
                 if out:
                     missing_slice = self.rest_slice(out, 0, a.get_size())
                     for sa, sb in missing_slice:
